@@ -18,7 +18,7 @@ def canary(grp):
 
 def model(tier):
     cfg = core.workdir("mc_" + PROP) + "/MC_Heck.cfg"
-    consts = dict(MaxLen=SIZES[tier]["mcL"])
+    consts = dict(MaxLen=SIZES[tier]["mcL"] - (1 if tier == "thorough" else 0), Latin1=(tier == "thorough"))
     core.write_cfg(cfg, constants=consts, invariants=["ScannerEqualsRule", "SnakifyShape", "WordsPartition"])
     res = core.tlc_mc("MC_Heck.tla", cfg, "mc_" + PROP, workers=6, timeout=7200, xmx="10g")
     for a in ("SplitAfter", "SplitBefore", "Advance"):
